@@ -256,6 +256,18 @@ def rule_L5(ctx: Ctx) -> None:
     tj = X.assignments_to(sc.node, "tokens_joined")
     ok = ok and len(tp) == 1 and X.same_expr(tp[0], "coords_string_split_UT(tokens_joined)") and len(tj) == 1 and X.same_expr(tj[0], "text if isinstance(text, str) else ' '.join(text)")
     ctx.judge(sc, ok, {}, "strings_to_coords joins a token list with single spaces, re-splits it with the UT splitter and converts each piece, in order (so list and string inputs parse alike)")
+    for fn_name, loopvar, conv in (("coords_to_strings", "coord", "result.extend(coord_to_strings_func(coord))"), ("strings_to_coords", "token", "result.append(coord)")):
+        fn = ctx.index.func(f"{TU}.{fn_name}")
+        loops = [n for n in fn.node.body if isinstance(n, ast.For)]
+        table = {}
+        if len(loops) == 1:
+            for n in ast.walk(loops[0]):
+                if isinstance(n, ast.If) and isinstance(n.test, ast.Compare) and X.U(n.test.left) == "when_noncoord" and isinstance(n.test.comparators[0], ast.Constant):
+                    act = X.U(n.body[0])[:40] if n.body else None
+                    table[n.test.comparators[0].value] = "continue" if isinstance(n.body[0], ast.Continue) else ("raise" if isinstance(n.body[0], ast.Raise) else act)
+        okf = table.get("skip") == "continue" and table.get("error") == "raise" and (table.get("include") or "").startswith("result.append(") and conv in X.U(fn.node)
+        ctx.judge(fn, okf, {"when_noncoord": table}, f"{fn_name}: non-coordinates are skipped / rejected / kept as they are according to when_noncoord; coordinates are converted in order",
+                  "special tokens are dropped or duplicated while converting between coordinates and strings")
     ic = ctx.index.func(f"{TU}.str_is_coord")
     t = X.U(ic.node)
     ok = "coord_str.startswith('(')" in t and "coord_str.endswith(')')" in t and "',' in coord_str" in t and "strip_func(x).isdigit()" in t
@@ -306,6 +318,6 @@ RULES = [
     Rule("C07.L2", rule_L2, floor=10, doc="legacy writer/reader delimiters"),
     Rule("C07.L3", rule_L3, floor=3, doc="default-equivalence table"),
     Rule("C07.L4", rule_L4, floor=5, doc="dataset-level tokenization (siblings)"),
-    Rule("C07.L5", rule_L5, floor=5, doc="parser / writer coordinate grammar"),
+    Rule("C07.L5", rule_L5, floor=7, doc="parser / writer coordinate grammar and conversion loops"),
     Rule("C07.L6", rule_L6, floor=6, doc="parsing pipeline"),
 ]
